@@ -188,6 +188,8 @@ func runC07(c *core.Ctx) {
 	runR78(c)
 	c.Rule("R7.10", "a text storage command consumes its data block and the line terminator that follows it: the buffer holds length+2 bytes, or a further read of the stream lies on every path from the data read to a success return", 1)
 	runR710(c, "R7.10")
+	c.Rule("R7.11", "every multi-byte integer put on or taken off a memcached wire (client side and backend side) is in network byte order", 8)
+	runR711(c, "R7.11")
 	c.Rule("R7.9", "a request header has one owner: a decoder handed the header its caller releases never puts it back into the pool itself (a header released twice is given to two connections, whose requests then overwrite each other's length fields)", 2)
 	runR147(c, "R7.9", poolWrappers(c), "protocol")
 }
@@ -404,7 +406,11 @@ func runR73(c *core.Ctx) {
 			continue
 		}
 		got := map[string][2]int64{}
+		var orderBad []string
 		for _, a := range ssax.BufAccesses(fn) {
+			if a.Width > 1 && a.Order != "big" {
+				orderBad = append(orderBad, fmt.Sprintf("bytes [%d:%d] are (de)serialised in %s-endian order at %s; the protocol is network byte order", a.Lo, a.Hi, map[string]string{"little": "little", "": "unknown"}[a.Order], c.P.Pos(a.Ins.Pos())))
+			}
 			switch {
 			case cd.reader && (a.Kind == "get" || a.Kind == "load"):
 				v, ok := a.Ins.(ssa.Value)
@@ -427,6 +433,7 @@ func runR73(c *core.Ctx) {
 			}
 		}
 		var bad []string
+		bad = append(bad, orderBad...)
 		for _, f := range cd.fields {
 			g, ok := got[f]
 			if !ok {
@@ -1060,4 +1067,75 @@ func runR710(c *core.Ctx, rule string) {
 	if n == 0 {
 		c.Undecided(rule, "textprot#terminator-consumed", "-", "no text storage command decoder found")
 	}
+}
+
+// runR711 (R7.11): everything rend puts on or takes off a memcached wire is in network byte order. One obligation per
+// function of the protocol package and of the backend handlers that (de)serialises a multi-byte integer through
+// encoding/binary: every such access is big-endian, for the fixed-offset forms (PutUintNN / UintNN) and for
+// binary.Write / binary.Read alike. (The header codecs are also covered field by field by R7.3.)
+func runR711(c *core.Ctx, rule string) {
+	n := 0
+	for _, rel := range []string{"protocol/binprot", "handlers/memcached/std", "handlers/memcached/batched", "handlers/memcached/chunked"} {
+		for _, fn := range pkgFuncs(c, rel) {
+			var bad []string
+			k := 0
+			ssax.Instrs(fn, func(ins ssa.Instruction) {
+				cc := ssax.CallOf(ins)
+				if cc == nil {
+					return
+				}
+				name := ssax.CalleeName(cc)
+				switch {
+				case strings.HasPrefix(name, "(encoding/binary.bigEndian)."):
+					k++
+				case strings.HasPrefix(name, "(encoding/binary.littleEndian)."):
+					k++
+					bad = append(bad, "little-endian access at "+c.P.Pos(ins.Pos()))
+				case name == "encoding/binary.Write" || name == "encoding/binary.Read":
+					k++
+					ord := cc.Args[1]
+					if mi, ok := ord.(*ssa.MakeInterface); ok {
+						ord = mi.X
+					}
+					if g := ssax.GlobalLoad(ord); g == nil || g.Name() != "BigEndian" {
+						bad = append(bad, name+" with a byte order other than binary.BigEndian at "+c.P.Pos(ins.Pos()))
+					}
+				}
+			})
+			if k == 0 || !touchesStream(fn) {
+				continue
+			}
+			n++
+			c.Check(len(bad) == 0, rule, core.FuncName(fn)+"#network-byte-order", c.P.Pos(fn.Pos()), fmt.Sprintf("%d multi-byte accesses, all big-endian", k),
+				strings.Join(bad, "; ")+": the field is decoded/encoded with its bytes reversed (a key length of 3 becomes 768)")
+		}
+	}
+	if n == 0 {
+		c.Undecided(rule, "wire#network-byte-order", "-", "no encoding/binary access found in the wire-facing packages")
+	}
+}
+
+// touchesStream: the function handles a reader/writer (a parameter, or any operand, of an io / bufio stream type).
+func touchesStream(fn *ssa.Function) bool {
+	isStream := func(t types.Type) bool {
+		switch types.TypeString(t, nil) {
+		case "*bufio.Reader", "*bufio.Writer", "*bufio.ReadWriter", "io.Reader", "io.Writer", "io.ReadWriter":
+			return true
+		}
+		return false
+	}
+	for _, p := range fn.Params {
+		if isStream(p.Type()) {
+			return true
+		}
+	}
+	found := false
+	ssax.Instrs(fn, func(ins ssa.Instruction) {
+		for _, op := range ins.Operands(nil) {
+			if op != nil && *op != nil && isStream((*op).Type()) {
+				found = true
+			}
+		}
+	})
+	return found
 }
